@@ -525,7 +525,7 @@ fn run_field<F: FS>(ctx: &Arc<Ctx>) {
         |&(_, w, v)| eval_from::<F>(&fld, w, v),
         |&(_, w, v)| (format!("{}|{}", F::NAME, FROMS[w]), json!({"field": F::NAME, "kind": "from", "form": FROMS[w], "val": v.to_string()})),
     );
-    r.rule(format!("E3/C10[{}:{}]: {} binary forms on S_small^2 ({}^2) and on S_limb ({}) x {} partners both orders, {} unary forms on S_small+S_limb, 4 iterator folds on all lists of length 0..3 over 8 values, 6 From<uN> x {} values; non-trivial = every case except division by zero; distinct by (engine, form, operands)", BUILD, F::NAME, nf, ns, nl, np, uforms.len(), uvals.len()));
+    r.rule(format!("E3/C10[{}:{}]: {} binary forms on S_small^2 ({}^2) and on S_limb ({}) x {} partners both orders, {} unary forms on S_small+S_limb, 4 iterator folds on all lists of length 0..3 over 8 values, 6 From<uN> x {} values; Montgomery-domain limb patterns (pairs x 7 forms, all unary forms); comparison / borrow boundary classes and operands with long divstep trajectories (a, aR, a/R) through every unary form and every binary form x 4 partners; non-trivial = every case except division by zero; distinct by (engine, form, operands)", BUILD, F::NAME, nf, ns, nl, np, uforms.len(), uvals.len()));
 }
 
 #[cfg(feature = "ark")]
